@@ -1,25 +1,97 @@
+import os
+
 ID = 'C10'
 UNITS = {'hash': dict(wrap='wrap.cc', new_block=320)}
-BOUNDS = ''
-STUBS = []
-OUTSIDE = []
-ASSUMPTIONS = []
+REPO = os.environ.get('VERIF_REPO', '/repo')
+try:
+    HOOK = 'verif_hash_block' in open(os.path.join(REPO, 'src', 'Hash.cc')).read()
+except OSError:
+    HOOK = False
+
+BOUNDS = ('FNV-1a 32/64: all contents of length 0..3 (quick) / 0..6 (thorough), symbolic seed, four overloads, chaining at every split point. '
+          'CRC-32: all contents of length 0..3 (quick) / 0..4 (thorough) with symbolic seed vs the bitwise definition; chaining over 4 (quick) / 6 '
+          '(thorough) bytes, all split points. MD5/SHA-1/SHA-256 digest (bin and hex) vs reference implementations: message length concrete per cell '
+          '(quick: 0,1,55,56,63,64,65; thorough: every length 0..130 for MD5, 0..3, 52..68, 116..130 for SHA-1/SHA-256, plus extra positions/patterns at '
+          'the block boundaries), content = fixed fill pattern with ONE free byte (all 256 values) at a fixed position (the last byte unless stated). '
+          'With hooks/hash-block-hook.patch applied: padding/framing for every length 0..130 with FULLY symbolic content.')
+STUBS = [
+    'vasprintf (h_md.c): exact model for sequences of "%08X" conversions of 32-bit values (8 upper-case hex digits each) - the only formats hex() uses; '
+    'anything else is an assertion failure',
+    'verif_hash_block(alg, block) (h_frame.c; only with the PHOSG_VERIF hook patch applied): records the blocks handed to the compression functions',
+]
+OUTSIDE = [
+    'digest correctness for messages with more than one unconstrained byte: a digest miter with >= 3 free bytes gives no verdict (MD5, 600 s), so "for every '
+    'byte string" is NOT decided for the compression functions; what is decided: each cell fixes a length and a fill pattern and leaves one byte free',
+    'message lengths > 130 (three blocks); the quantifier\'s "random inputs up to 1 MiB"',
+    'without the hook patch the padding is only exercised through the digest cells (fixed pattern + one free byte)',
+    'FNV/CRC contents longer than 6 bytes (the recurrences are byte-uniform; longer inputs repeat the same step)',
+]
+ASSUMPTIONS = [
+    'reference implementations in h_md.c follow RFC 1321 / FIPS 180-4; their constant tables are generated from the defining formulas, and they were '
+    'cross-checked against Python hashlib on the fill patterns (sanity only, not part of the verdict)',
+    'little-endian host (PHOSG_LITTLE_ENDIAN path of SHA-1/SHA-256)',
+]
+ALGS = ((0, 'md5'), (1, 'sha1'), (2, 'sha256'))
+
 
 def queries(tier):
+    thorough = tier != 'quick'
     qs = []
-    def q(name, harness, defs, unwind, timeout=300, mem_gb=6, desc='', bounds='', **kw):
+
+    def q(name, harness, defs, unwind, timeout=600, mem_gb=6, desc='', bounds='', **kw):
         d = dict(name=name, unit='hash', harness=harness, defs=defs, unwind=unwind, timeout=timeout, mem_gb=mem_gb, desc=desc, bounds=bounds)
         d.update(kw)
         qs.append(d)
+
+    # ---- FNV-1a -----------------------------------------------------------------------------------------------------------
     for bits in (32, 64):
-        for n in (0, 2, 6):
-            q('fnv%d_len%d' % (bits, n), 'h_fnv.c', {'BITS': bits, 'LEN': n}, n + 18, 300)
-    for n in (0, 2, 4):
-        q('crc_val_len%d' % n, 'h_crc.c', {'MODE': 0, 'LEN': n}, 10, 300)
-    q('crc_chain_len4', 'h_crc.c', {'MODE': 1, 'LEN': 4}, 10, 300)
-    for alg, an in ((0, 'md5'), (1, 'sha1'), (2, 'sha256')):
-        q('%s_len0' % an, 'h_md.c', {'ALG': alg, 'LEN': 0}, 200, 300)
-        q('%s_len3' % an, 'h_md.c', {'ALG': alg, 'LEN': 3}, 200, 300)
-        q('%s_len56' % an, 'h_md.c', {'ALG': alg, 'LEN': 56}, 200, 300)
-        q('%s_len3_hex' % an, 'h_md.c', {'ALG': alg, 'LEN': 3, 'HEX': 1}, 200, 300)
+        for n in range(0, 7 if thorough else 4):
+            for k in range(0, n + 1):
+                w = (k + n) % 4
+                q('fnv%d_len%d_k%d' % (bits, n, k), 'h_fnv.c', {'BITS': bits, 'LEN': n, 'K': k, 'WHICH': w}, n + 20, 600, backend='kissat',
+                  desc='fnv1a%d on %d symbolic bytes, symbolic seed, overload %d == recurrence h=(h^b)*prime; chaining at split %d' % (bits, n, w, k),
+                  bounds='length %d, all contents, all seeds' % n)
+    # ---- CRC-32 -------------------------------------------------------------------------------------------------------------
+    for n in range(0, 5 if thorough else 4):
+        q('crc_val_len%d' % n, 'h_crc.c', {'MODE': 0, 'LEN': n}, 10, 900, backend='kissat', cost=20 * n * n + 1,
+          desc='crc32 on %d symbolic bytes, symbolic seed (and default seed) == bit-at-a-time reflected 0xEDB88320 definition' % n,
+          bounds='length %d, all contents, all seeds' % n)
+    cn = 6 if thorough else 4
+    q('crc_chain_len%d' % cn, 'h_crc.c', {'MODE': 1, 'LEN': cn}, 10, 900, backend='kissat', cost=200,
+      desc='crc32(suffix, crc32(prefix, seed)) == crc32(whole, seed), symbolic split point', bounds='length %d, all contents, seeds, split points' % cn)
+    # ---- digests ----------------------------------------------------------------------------------------------------------------
+    def dq(alg, an, n, pos=None, pat=0, hexm=0, fs=0):
+        pos = (n - 1 if pos is None else pos) if n > 0 else 0
+        nm = '%s_len%d_pos%d_pat%d%s%s' % (an, n, pos, pat, '_hex' if hexm else '', '_str' if fs else '')
+        if any(x['name'] == nm for x in qs):
+            return
+        q(nm, 'h_md.c', {'ALG': alg, 'LEN': n, 'POS': pos, 'PAT': pat, 'HEX': hexm, 'FROM_STRING': fs}, 200, 900, cost=30 + n // 2,
+          desc='%s %s of a %d-byte message (fill pattern %d, byte %d free over all 256 values, %s constructor) == reference implementation (RFC 1321 / FIPS 180-4)'
+               % (an, 'hex()' if hexm else 'bin()', n, pat, pos, 'std::string' if fs else 'pointer'),
+          bounds='length %d, one free byte at position %d' % (n, pos))
+    for alg, an in ALGS:
+        if not thorough:
+            for n in (0, 1, 55, 56, 63, 64, 65):
+                dq(alg, an, n)
+            dq(alg, an, 3, hexm=1)
+            dq(alg, an, 56, pos=0, fs=1, pat=2)
+        else:
+            lens = range(0, 131) if alg == 0 else list(range(0, 4)) + list(range(52, 69)) + list(range(116, 131))
+            for n in lens:
+                dq(alg, an, n, pat=n % 4)
+            for n in (55, 56, 57, 63, 64, 65, 119, 120, 128):
+                dq(alg, an, n, pos=0, pat=(n + 1) % 4)
+                if n > 64:
+                    dq(alg, an, n, pos=63, pat=(n + 2) % 4)
+                    dq(alg, an, n, pos=64, pat=(n + 3) % 4)
+            for n in (3, 56, 64):
+                dq(alg, an, n, hexm=1)
+                dq(alg, an, n, fs=1, pat=2)
+    # ---- framing (needs the hook) ---------------------------------------------------------------------------------------------------
+    if HOOK:
+        for alg, an in ALGS:
+            for n in (range(0, 131) if thorough else (0, 1, 55, 56, 57, 63, 64, 65, 119, 120)):
+                q('%s_frame_len%d' % (an, n), 'h_frame.c', {'ALG': alg, 'LEN': n}, 200, 600, flags=['--slice-formula'], cost=10,
+                  desc='%s: blocks handed to the compression function == msg || 0x80 || 0* || bitlen64 for a fully symbolic %d-byte message (both constructors)' % (an, n),
+                  bounds='length %d, all contents' % n)
     return qs
